@@ -65,4 +65,12 @@ META["C02"]["text"] += " Compute functions and loaders that panic are part of th
 META["C02"]["note"] = S4NOTE + " A porcupine time-out is inconclusive."
 META["C13"]["text"] += " 'tick' actions fire the clock's ticker so that the cache's own periodic clean-up goroutine runs the maintenance."
 META["C19"]["text"] += " Two further tests: the save runs while bystander goroutines compete for the eviction lock without changing the contents (free-running), and the key-type interpreter of C01 saves and reloads caches keyed by strings, structs (incl. padding and zero-valued fields), arrays and floats."
+META["C08"]["text"] += " Optional modes: an install gate (finished loads park before their installing step) and a waiting OnDeletion listener on a same-goroutine executor (the release of waiters must not depend on the post-load bookkeeping)."
+META["C09"]["text"] += " A free-running variant has one writer per key whose Compute functions keep the bucket locked while a finished load waits for it; once a write has returned the key may never hold the value of a load entered before that write began."
+META["C10"]["text"] += " In the synctest world a caller that joined somebody else's load and has returned (v, nil) must find v cached (observed between the loader's return and the installing step)."
+META["C12"]["text"] += " On the hook-point scheduler readers run while a write is inside its calculator callbacks (the callbacks are scheduling points): an entry must never be visible before its deadlines were computed."
+META["C13"]["text"] += " On the hook-point scheduler deadline-extending touches park inside the calculator while sweeps run; afterwards the clock moves far ahead and maintenance must empty the table."
+META["C14"]["text"] += " A free-running variant runs thousands of short rounds with the default executor and judges the quiescent state after each round without a further cache call (windows that contain no hook point)."
+META["C17"]["text"] += " At cache level, concurrent programs with frequent InvalidateAll must leave the read buffer empty after the final maintenance."
+META["C18"]["text"] += " At cache level the cache's own estimates are compared after every call with a lower bound of the recordings (delivered hits, creations; halved at aging, dropped on re-allocation), with run-time SetMaximum and snapshot loads into a tracking cache."
 NOT_APPLICABLE = {}
